@@ -216,6 +216,13 @@ func StringLit(t *rapid.T, s string, label string) Lit {
 // TimeLit renders an instant as an RFC 3339 string in one of several spellings.
 func TimeLit(t *rapid.T, label string) Lit {
 	tm := Time(t, label)
+
+	// RFC 3339 also has a year 0000; written in the machine's zone, half an
+	// hour after it began, it is in year -1 once converted to UTC.
+	if rapid.IntRange(0, 39).Draw(t, label+"-year0") == 0 {
+		tm = time.Date(0, 1, 1, 0, 30, 0, 0, rapid.SampledFrom([]*time.Location{time.Local, time.UTC, time.FixedZone("", 3600)}).Draw(t, label+"-year0-zone"))
+	}
+
 	_, off := tm.Zone()
 	offMin := off / 60
 
